@@ -58,6 +58,10 @@ pub struct Knobs {
     pub upstream_fault_kinds: Vec<String>,
     #[serde(default)]
     pub forced_faults: Vec<ForcedFault>,
+    /// Names owned by local authoritative zones, offered to the byzantine
+    /// upstream as targets.
+    #[serde(default)]
+    pub local_targets: Vec<String>,
 }
 
 impl Default for Knobs {
@@ -72,6 +76,7 @@ impl Default for Knobs {
             params: BTreeMap::new(),
             upstream_fault_kinds: Vec::new(),
             forced_faults: Vec::new(),
+            local_targets: Vec::new(),
         }
     }
 }
@@ -262,6 +267,7 @@ pub fn run(plan: &ResolvePlan, exec: &Exec, want_log: bool) -> Observations {
         net.forwarder = forwarder;
         net.fault_kinds.clone_from(&plan.knobs.upstream_fault_kinds);
         net.forced.clone_from(&plan.knobs.forced_faults);
+        net.local_targets.clone_from(&plan.knobs.local_targets);
         let net = Rc::new(RefCell::new(net));
         world::with(|w| w.net.set_internet(net.clone()));
 
